@@ -1,5 +1,6 @@
 import JenVerif.Lemmas.ListSem
 import JenVerif.Lemmas.Refine
+import JenVerif.Lemmas.Frame
 import JenVerif.Gen.Constructs
 /-
   C13 — nil and Null() items vanish from lists; Empty() keeps its separator.
@@ -52,19 +53,33 @@ theorem empty_separates (cfg : Cfg) (e : Env) (g : GInfo) (a b : Code)
   have hr : renderP cfg e none Code.empty = [] := by simp [Code.empty, renderP, tokText]
   simp [renderItemsP, ha, hb, he, hr]
 
-/-- lifted to the stateful renderer (which registers imports while rendering): with void items
-    inserted, the text is unchanged under every later naming, because void items contain no
-    rendered package token -/
-theorem insert_void_stateful (cfg : Cfg) (f : FileS) (hg : Good cfg f) (prev : Option Code) (g : GInfo)
-    (xs ys : List Code) (v : Code) (hv : void v = true) (f3 f3' : FileS)
-    (h3 : Ext (renderS cfg f prev (.group g (xs ++ v :: ys))).2 f3)
-    (h3' : Ext (renderS cfg f prev (.group g (xs ++ ys))).2 f3') (he : envOf f3 = envOf f3') :
-    (renderS cfg f prev (.group g (xs ++ v :: ys))).1 = (renderS cfg f prev (.group g (xs ++ ys))).1 := by
-  have s1 := renderS_spec cfg (.group g (xs ++ v :: ys)) f prev hg trivial
-  have s2 := renderS_spec cfg (.group g (xs ++ ys)) f prev hg trivial
-  unfold Spec at s1 s2
-  rw [s1.2 f3 h3, s2.2 f3' h3', he]
-  exact render_insert_void cfg (envOf f3') prev g xs ys v hv
+theorem void_not_pkg (v : Code) (hv : void v = true) : ∀ s, v ≠ .tok .pkg s := by
+  intro s e
+  subst e
+  simp [void] at hv
+
+/-- STATEFUL renderer (imports registered while rendering), with NO side condition: a void item
+    inserted at any position of any group's item list changes neither the text, nor the
+    "nothing was rendered" flag, nor the registry reached — under every file state -/
+theorem insert_void_stateful_items (cfg : Cfg) (g : GInfo) (v : Code) (hv : void v = true) :
+    ∀ (xs ys : List Code) (first : Bool) (f : FileS),
+      renderItemsS cfg g first f (xs ++ v :: ys) = renderItemsS cfg g first f (xs ++ ys)
+  | [], ys, first, f => by
+      simpa using Frame.null_item_contributes_nothing cfg g first f v ys (void_isNull f.np v hv) (void_not_pkg v hv)
+  | x :: xs, ys, first, f => by
+      simp only [List.cons_append]
+      rw [renderItemsS_cons, renderItemsS_cons]
+      rw [insert_void_stateful_items cfg g v hv xs ys first, insert_void_stateful_items cfg g v hv xs ys false]
+
+theorem allNull_insert_void (np : Str → Bool) (v : Code) (hv : void v = true) (xs ys : List Code) :
+    allNull np (xs ++ v :: ys) = allNull np (xs ++ ys) := by
+  simp [allNull_append, allNull, void_isNull np v hv]
+
+/-- … hence for the whole group, in File.Render / RenderWithFile as well -/
+theorem insert_void_stateful (cfg : Cfg) (f : FileS) (prev : Option Code) (g : GInfo) (xs ys : List Code) (v : Code)
+    (hv : void v = true) :
+    renderS cfg f prev (.group g (xs ++ v :: ys)) = renderS cfg f prev (.group g (xs ++ ys)) := by
+  simp only [renderS, allNull_insert_void f.np v hv xs ys, insert_void_stateful_items cfg g v hv xs ys true f]
 
 /-- the limit of the property, made explicit: inside a STATEMENT a void item directly between
     `Case(…)` and the following `Block` changes the output, because the case-block test looks at
